@@ -644,7 +644,7 @@ func main() {
 	}
 	wg.Wait()
 
-	w := lib.NewWriter(args, "C12", "c12", "From KB Require Import Model.C12Cases.", "c12_case", "c12_check", "c12_oracle", 40)
+	w := lib.NewWriter(args, "C12", "c12", "From KB Require Import Model.C12Cases.", "c12_case", "c12_check", "c12_oracle", 12)
 	reqKinds := map[string]int{}
 	for c, e := range errs {
 		if e != nil {
